@@ -128,7 +128,7 @@ class Sink:
         self.name, self.fn, self.variants, self.fname, self.max_len, self.cost = name, fn, variants, fname, max_len, cost
 
 
-def sink(name, variants=(None,), fname=False, max_len=40, cost=1):
+def sink(name, variants=(None,), fname=False, max_len=80, cost=1):
     def deco(fn):
         SINKS[name] = Sink(name, fn, list(variants), fname, max_len, cost)
         return fn
@@ -316,8 +316,10 @@ def _ph_gf_name(env, v, s):
 def _movie_name(env, v, s):
     prs, slide = _prs()
     poster = env.image("poster.png") if v == "poster" else None
-    slide.shapes.add_movie(env.movie(s + ".mp4"), 0, 0, 1000, 1000, poster_frame_image=poster, mime_type="video/mp4")
-    return prs, [("name", lambda p: p.slides[0].shapes[0].name, s + ".mp4")]
+    # the media part takes its extension from the file name: a stem of dots only ("..mp4") has none
+    fn = (s if s.strip(".") else "v" + s) + ".mp4"
+    slide.shapes.add_movie(env.movie(fn), 0, 0, 1000, 1000, poster_frame_image=poster, mime_type="video/mp4")
+    return prs, [("name", lambda p: p.slides[0].shapes[0].name, fn)]
 
 
 @sink("add_movie.poster_file", variants=[".png", ".jpg"], fname=True)
@@ -347,7 +349,7 @@ def _ole_progid(env, v, s):
 
 # ---- hyperlinks
 
-@sink("hyperlink.address", variants=["shape", "picture", "run", "run-replace"], max_len=60)
+@sink("hyperlink.address", variants=["shape", "picture", "run", "run-replace"], max_len=120)
 def _hlink(env, v, s):
     from pptx.enum.shapes import MSO_SHAPE
 
